@@ -29,10 +29,10 @@ type SOffset struct{ UUID, Seq, Start, End, Latest uint64 }
 type SDoc struct{ UUID, Seq, Start, End uint64 }
 
 func (o SOffset) term() gal.Term {
-	return gal.App("O", gal.N(o.UUID), gal.N(o.Seq), gal.N(o.Start), gal.N(o.End), gal.N(o.Latest))
+	return gal.App("MkO", gal.N(o.UUID), gal.N(o.Seq), gal.N(o.Start), gal.N(o.End), gal.N(o.Latest))
 }
 func (d SDoc) term() gal.Term {
-	return gal.App("D", gal.N(d.UUID), gal.N(d.Seq), gal.N(d.Start), gal.N(d.End))
+	return gal.App("MkD", gal.N(d.UUID), gal.N(d.Seq), gal.N(d.Start), gal.N(d.End))
 }
 
 type SItem struct {
@@ -43,7 +43,7 @@ type SItem struct {
 }
 
 func (it SItem) term() gal.Term {
-	return gal.App("I", gal.N(it.Seq), gal.N(it.Cas), gal.N(uint64(it.Cid)), gal.Bytes(it.Key), gal.N(it.Rest))
+	return gal.App("MkI", gal.N(it.Seq), gal.N(it.Cas), gal.N(uint64(it.Cid)), gal.Bytes(it.Key), gal.N(it.Rest))
 }
 
 type SEv struct {
